@@ -4,6 +4,7 @@ package main
 // Every random choice comes from one splitmix64 stream seeded by VERIF_SEED.
 
 import (
+	"strconv"
 	"encoding/base32"
 	"encoding/binary"
 	"fmt"
@@ -317,6 +318,23 @@ func genC03(r *rng, n int, hostile bool) []string {
 			code, _ = mutateCode(r, refHOTP(key, cc, 6, 0))
 		}
 		out = append(out, fmt.Sprintf("vhotp %s %s %d %s", hxs(spell(r, key)), hxs(code), c, p))
+		if r.intn(10) == 0 && d >= 1 && d <= 10 && a < 3 {
+			// replay chain: a code of an earlier call's window, submitted again where the window is clipped at counter 0
+			// (or for another secret): nothing may be remembered from the earlier call
+			s2 := uint64(1 + r.intn(10))
+			c1 := uint64(20 + r.intn(1000))
+			p2 := paramStr(d, 0, s2, a)
+			k1 := hxs(spell(r, key))
+			out = append(out, fmt.Sprintf("vhotp %s %s %d %s", k1, hxs(refHOTP(key, c1, d, a)), c1, p2))
+			for j := 0; j < 3; j++ {
+				off := uint64(r.intn(int(2*s2+1))) - s2
+				k2 := k1
+				if r.intn(3) == 0 {
+					k2 = hxs(spell(r, genKey(r)))
+				}
+				out = append(out, fmt.Sprintf("vhotp %s %s %d %s", k2, hxs(refHOTP(key, c1+off, d, a)), uint64(r.intn(int(s2))), p2))
+			}
+		}
 		if r.intn(8) == 0 {
 			// the string object returned by a generation, validated at another counter
 			c2 := c + uint64(r.intn(int(2*w+7))) - uint64(w+3)
@@ -369,6 +387,22 @@ func genC04(r *rng, n int, hostile bool) []string {
 			code, _ = mutateCode(r, refHOTP(key, step+uint64(r.intn(3))-1, 6, 0))
 		}
 		out = append(out, fmt.Sprintf("vtotp %s %s %s %s", hxs(spell(r, key)), hxs(code), timeFields(r, sec), p))
+		if r.intn(10) == 0 && d >= 1 && d <= 10 && a < 3 {
+			// replay chain (see genC03): an earlier call's window code submitted again near the epoch / for another secret
+			s2 := uint64(1 + r.intn(10))
+			st1 := uint64(20 + r.intn(1000))
+			p2 := paramStr(d, 30, s2, a)
+			k1 := hxs(spell(r, key))
+			out = append(out, fmt.Sprintf("vtotp %s %s %s %s", k1, hxs(refHOTP(key, st1, d, a)), timeFields(r, int64(st1*30+7)), p2))
+			for j := 0; j < 3; j++ {
+				off := uint64(r.intn(int(2*s2+1))) - s2
+				k2 := k1
+				if r.intn(3) == 0 {
+					k2 = hxs(spell(r, genKey(r)))
+				}
+				out = append(out, fmt.Sprintf("vtotp %s %s %s %s", k2, hxs(refHOTP(key, st1+off, d, a)), timeFields(r, int64(r.intn(int(s2))*30+3)), p2))
+			}
+		}
 		if r.intn(6) == 0 && sec >= 0 {
 			// the string object returned by a generation, validated at another instant (possibly far away)
 			t2 := sec + int64(r.intn(int(2*w+7))-int(w+3))*int64(ep)
@@ -749,13 +783,36 @@ func genC07(r *rng, n int, hostile bool) []string {
 		}
 		out = append(out, "dec "+hxs(e+"="), "dec "+hxs(e+"========"))
 	}
+	// every byte value substituted for / inserted before one character of a valid text (exhaustive in the byte)
+	{
+		base := base32.StdEncoding.EncodeToString(r.bytes(10)) // 16 characters, no padding
+		at := r.intn(len(base))
+		for v := 0; v < 256; v++ {
+			out = append(out, "dec "+hxs(base[:at]+string([]byte{byte(v)})+base[at+1:]))
+			if v%4 == 0 {
+				out = append(out, "dec "+hxs(base[:at]+string([]byte{byte(v)})+base[at:]+"======="))
+			}
+		}
+	}
 	for i := 0; i < n; i++ {
 		key := r.bytes(r.intn(257))
 		if r.intn(3) == 0 {
 			key = genKey(r)
 		}
 		sp := spell(r, key)
-		switch r.intn(10) {
+		switch r.intn(12) {
+		case 10: // one bit of one character flipped (neighbours of the alphabet under case folds, parity bits, …)
+			b := []byte(sp)
+			if len(b) > 0 {
+				b[r.intn(len(b))] ^= 1 << uint(r.intn(8))
+			}
+			sp = string(b)
+		case 11: // any byte value anywhere
+			b := []byte(sp)
+			if len(b) > 0 {
+				b[r.intn(len(b))] = byte(r.intn(256))
+			}
+			sp = string(b)
 		case 0: // a character outside the alphabet somewhere
 			b := []byte(sp)
 			if len(b) > 0 {
@@ -820,6 +877,33 @@ func genC08(r *rng, n int, hostile bool) []string {
 		}
 		chunk := pick(r, []int{0, 0, 1, 7, 16, 19, 20, 31, 32, 63, 64})
 		out = append(out, fmt.Sprintf("rnd %d %s %d", a, hx(st), chunk))
+		if i%12 == 0 {
+			// histories against one source: mixed sizes, long enough to cross any internal buffering
+			k := 1 + r.intn(24)
+			as := make([]string, k)
+			switch r.intn(4) {
+			case 0: // one hash for a while, then another
+				a0, a1 := r.intn(3), r.intn(3)
+				cut := r.intn(k + 1)
+				for j := range as {
+					if j < cut {
+						as[j] = strconv.Itoa(a0)
+					} else {
+						as[j] = strconv.Itoa(a1)
+					}
+				}
+			case 1:
+				for j := range as {
+					as[j] = strconv.Itoa(pick(r, []int{0, 1, 2, 0, 1, 2, 0, 1, 2, 3, 255}))
+				}
+			default:
+				for j := range as {
+					as[j] = strconv.Itoa(r.intn(3))
+				}
+			}
+			out = append(out, fmt.Sprintf("rndseq %s %s %d %d", strings.Join(as, ","), hx(r.bytes(4096)),
+				pick(r, []int{0, 0, 0, 1, 7, 19, 20, 31, 33, 64}), pick(r, []int{1, 1, 1, 2, 8})))
+		}
 		if i%25 == 0 {
 			// interleaved calls: the results must be the encodings of disjoint consecutive stream segments
 			out = append(out, fmt.Sprintf("rndpar %d %s %d", r.intn(3), hx(r.bytes(64*8)), 2+r.intn(7)))
